@@ -772,11 +772,7 @@ func round(x float64, prec int) float64 {
 			x = math.Ceil(intermed)
 		}
 	} else {
-		if x < 0 {
-			x = math.Ceil(intermed - 0.5)
-		} else {
-			x = math.Floor(intermed + 0.5)
-		}
+		x = math.Round(intermed)
 	}
 
 	if x == 0 {
